@@ -10,7 +10,7 @@ import ast
 import re
 
 from ..astx import code
-from ..astx import walk_no_nested, dotted, call_name, dominating_conditions, flatten_conditions, func_params, terminates, \
+from ..astx import self_attr, walk_no_nested, dotted, call_name, dominating_conditions, flatten_conditions, func_params, terminates, \
     resolve_local
 from ..core import norm, Inconclusive
 
@@ -253,7 +253,21 @@ def r19c(ctx):
     # ... and nothing is kept on the Expression between evaluations: the same compiled expression is evaluated for every pair of
     # nodes, so state stored on self (a merged scope, a memo of resolved names) makes the variables of one call resolvable in the next
     kept = []
-    for fnode in (ev.node, gv.node):
+    # eval(), get_value() and the methods of the class they call (two levels): state kept by a helper is state all the same
+    eq_ = m.need_class("Expression")
+    kept_region = [ev.node, gv.node]
+    frontier_ = [ev.node, gv.node]
+    for _ in range(2):
+        nxt_ = []
+        for g_ in frontier_:
+            for c_ in walk_no_nested(g_):
+                if isinstance(c_, ast.Call) and self_attr(c_.func):
+                    h_ = m.method(eq_, self_attr(c_.func))
+                    if h_ is not None and h_.node not in kept_region and h_.node.name != "__init__":
+                        kept_region.append(h_.node)
+                        nxt_.append(h_.node)
+        frontier_ = nxt_
+    for fnode in kept_region:
         self_alias = {"self"}
         held = set()
         for a_ in walk_no_nested(fnode):
